@@ -74,6 +74,7 @@ class RScope:
         self.labels = []
         self.table = None
         self.redef = set()  # := constants assigned more than once in this scope
+        self.predecl = set()  # labels that a statement list of this scope defines (known from the start of that list)
 
     def chain(self):
         s = self
@@ -166,6 +167,8 @@ class RefAsm:
         for s in scope.chain():
             if name in s.ct:
                 return s.ct[name]
+            if name in s.predecl:
+                raise Undefined(name)
             if name in s.defs or name in s.code:
                 # the innermost definition of the name is not an expansion-time value (label, `=`, deferred
                 # parameter, loop variable): an outer constant of the same spelling must NOT shine through
@@ -244,6 +247,12 @@ class RefAsm:
 
     # ---- statements ------------------------------------------------------------------
     def run_body(self, body, scope):
+        # a label belongs to its scope as a whole: from the first statement of the list on, the name means that label (forward
+        # references are normal), so an outer constant of the same spelling is hidden from expansion-time lookups as well
+        if scope is not self.root:
+            for st in body:
+                if st[0] == "label":
+                    scope.predecl.add(st[1])
         for st in body:
             self.stmt(st, scope)
 
